@@ -1,39 +1,87 @@
+import json as _json
+import os as _os
+
+
+def _value_channels():
+    """The value -> structure channels found in the current sources by the last run of
+    translators/c09_value_channels.py (file:line, enclosing fn, kind, review class, the harness
+    operation that steers it)."""
+    p = _os.path.join(_os.path.dirname(_os.path.abspath(__file__)), "..", "translators", "c09_value_channels.found.json")
+    try:
+        sites = _json.load(open(p))["sites"]
+    except (OSError, ValueError, KeyError):
+        return ["<run translators/c09_value_channels.py>"]
+    return [f"{s['where']} fn {s['fn']} [{s['kind']}] class={s['class']}"
+            + (f" exercised by: {s['exercised_by']}" if s.get("exercised_by") else "") for s in sites]
+
+
 CHECK = {
     "lean_module": "MidnightZK.Props.C09",
     "harness": "h-c09",
-    "translators": [],
+    "translators": ["c09_value_channels"],
     "level": "proof",
     "technique": "executable model of the single-pass floor planner, keygen view and cost model, proved "
-                 "value-independent in Lean; recording Assignment backend + transparent spy layouter under "
-                 "the circuit's real FloorPlanner; exhaustive-over-classes witness sweep per operation circuit",
+                 "value-independent in Lean; characterisation theorem 'structure + values' <=> 'erased call log "
+                 "constant'; recording Assignment backend + transparent spy layouter under the circuit's real "
+                 "FloorPlanner; exhaustive-over-classes witness sweep per operation circuit with the copy constraints "
+                 "compared as a canonical set; syntactic inventory of every value -> structure channel of the sources "
+                 "against a reviewed allow-list, regenerated on every run",
     "rule": "one circuit per library operation x {unknown witness, each boundary class, seeded random witnesses}; "
             "a case is non-trivial when it is a distinct request line (placement from shapes, full layout of the "
-            "keygen run, layout of a witness run with its advice values, constant-cache sequence)",
+            "keygen run, layout of a witness run with its advice values, constant-cache sequence); operations that "
+            "contain a channel of class `index` (a witness value picks a Rust index) get witnesses selecting the "
+            "first, the last and other entries, and real keygen-without-witness + prove + verify of two of them",
     "explanation": "Lean theorems: placement, the backend call sequence, the keygen view (selectors, fixed cells, "
                    "fills, copies), row usage and the cost model are functions of the synthesis with advice values "
-                   "erased; the planner never overlaps regions; constant cache keyed by value. Tie: the model "
+                   "erased; the planner never overlaps regions; constant cache keyed by value; a synthesiser is "
+                   "'witness-free skeleton + separately supplied advice values' (the shape of the emitters of the "
+                   "models of C04-C08, whose Lean types have no witness argument) iff its erased call log is the same "
+                   "for all witnesses, and then it has one keygen view / one verifying key; what the permutation "
+                   "argument enforces depends only on the SET of canonical copy pairs; the generated list of value -> "
+                   "structure channels of the current sources is contained in the reviewed allow-list. Tie: the model "
                    "recomputes from the region-relative call log of the REAL synthesis every region start, the "
                    "digest of the whole absolute call sequence, (rows, table rows, instance rows, k) of the real "
-                   "cost model and the keygen-view digest; the harness checks on the real code that the recorded "
-                   "structure, vk bytes, cost model and MockProver fixed/selector/permutation tables are identical "
-                   "for the unknown witness and every witness class, and that proofs made with the witness verify "
-                   "under the key generated without it",
+                   "cost model, the keygen-view digest and the digest of the canonical copy-pair set; the harness "
+                   "checks on the real code that the recorded structure (call by call), the copy constraints as a "
+                   "canonical set of (cell, cell) pairs, vk bytes, cost model and MockProver fixed/selector/permutation "
+                   "tables are identical for the unknown witness and every witness class, and that proofs made with "
+                   "the witness verify under the key generated without it. The call-by-call comparison is deliberately "
+                   "tight: a witness-dependent ORDER of otherwise equal calls is reported too (the detail says whether "
+                   "the copy set / the induced partition are equal). The channel inventory is syntactic and "
+                   "deliberately tight as well: any edit of the text of a reviewed channel site needs a new review "
+                   "(edits elsewhere in the file, line shifts, renamed unrelated code do not fire)",
+    "value_channels": _value_channels(),
     "trusted_base": [
         "the recording Assignment backend and the spy layouter of the harness (checked transparent on every circuit: "
         "the call sequence with and without the spy is compared)",
         "KZG commitments / proof system: used as a black box for the vk-bytes and prove-verify oracles",
+        "the syntactic scanner translators/c09_value_channels.py (python): it recognises value escapes by shape "
+        "(closures given to map/and_then/map_with_result that assign to / mutate captured variables, touch the "
+        "layouter, or abort; discarded `.map(..);`; error_if_known_and / assert_if_known / map_with_result; effectful "
+        "assign_advice closures; Value::into_option/assign inside midnight-proofs); receivers that are visibly "
+        "iterators / Option / Result are skipped; `.unwrap()` inside value closures, escapes through `Debug` "
+        "formatting of a Value, through interior mutability reached by a method call not in its list of mutators, "
+        "or through a helper function defined elsewhere that performs the side effect are NOT recognised",
+        "the review notes of translators/c09_value_channels.allow.json (human judgement per site)",
     ],
     "assumptions": [
         "the witness classes listed per operation cover the data-dependent branches of the off-circuit helpers "
-        "(zero/non-zero, equal/unequal, carries, identity points, vector lengths); a branch on a value outside every "
-        "class is not exercised",
+        "(zero/non-zero, equal/unequal, carries, identity points, vector lengths, selected table index); a branch on a "
+        "value outside every class is not exercised",
+        "channels of class `abort` (a witness aborts synthesis by error/panic) and `state` (CPU-side state moved out "
+        "of a Value and read back only inside later value closures) are accepted by review; the automaton chip's "
+        "and the in-circuit verifier's channels are not steered by a C09 operation circuit (cost)",
     ],
     "level_text": "Kernel-checked Lean theorems that the floor-planner placement, the backend call sequence, the keygen "
-                  "view and the cost model are functions of the circuit structure with witness values erased (all "
-                  "circuits, all witnesses), with the model reproducing the real placements and call sequences of "
-                  "every operation circuit on every run, and the real code checked structure-identical across the "
-                  "unknown witness and all witness classes",
-    "level_note": "Model determinism is proved; that each gadget's region closures make the same calls for every "
-                  "witness is established by exhaustive-over-classes correspondence, not by proof over the Rust code",
+                  "view (incl. the copy constraints as a set) and the cost model are functions of the circuit structure "
+                  "with witness values erased (all circuits, all witnesses), and that a synthesiser has one verifying "
+                  "key iff it is a witness-free skeleton plus advice values; with the model reproducing the real "
+                  "placements, call sequences and copy-pair sets of every operation circuit on every run, the real code "
+                  "checked structure-identical across the unknown witness and all witness classes (incl. the gadgets "
+                  "that pick a table index off-circuit), and every syntactic value -> structure channel of the sources "
+                  "checked against a reviewed allow-list on every run",
+    "level_note": "Model determinism and the skeleton+values characterisation are proved; that each gadget of the Rust "
+                  "code IS skeleton+values is established by exhaustive-over-classes correspondence plus the syntactic "
+                  "channel inventory (a heuristic scanner with a reviewed allow-list), not by proof over the Rust code",
     "timeout": {"quick": 900, "thorough": 3600, "search": 900},
 }
